@@ -35,5 +35,7 @@ func init() {
 			New: "\tvar sendResult = func(err error) {\n\t\tresult <- err\n\t}\n\tvar reply = sendResult\n\n\tif atomic.LoadInt32(&mdb.plotting) != 0 {\n\t\treply(ErrAlreadyPlotting)"},
 		{Name: "one Once for all plot runs (seed C13-r2a)", Kill: true, Rule: "C13-CHAN", File: "poc/engine/massdb/massdb.v1/massdb.v1.go",
 			Old: "\tmdb.stopOnce = new(sync.Once)\n", New: ""},
+		{Name: "fresh Once created into a local first", Kill: false, File: "poc/engine/massdb/massdb.v1/massdb.v1.go",
+			Old: "\tmdb.stopOnce = new(sync.Once)\n", New: "\tonce := new(sync.Once)\n\tmdb.stopOnce = once\n"},
 	}
 }
